@@ -52,6 +52,12 @@ def hardBreakOK (input : List Cell) (ls : List (List Cell)) : Bool :=
   (List.range tb.size).all fun i =>
     !(tb.getD i false) || (idx.getD i 0 < idx.getD (i + 1) 0)
 
+/-- "A hard line break always ends the current line", read literally: the scanners strip the hard
+break that ends a line, so no emitted line contains a line terminator at all (a terminator inside a
+line would be a hard break that did not end it). -/
+def noTermInLines (ls : List (List Cell)) : Bool :=
+  ls.all fun l => l.all fun c => !c.term
+
 /-- Unbreakable runs under a pairwise break oracle: maximal blocks of consecutive cells with no
 break opportunity between neighbours and no terminator inside (a terminator ends its block). -/
 def runs (lb : Nat → Nat → Bool) : List Cell → List (List Cell)
